@@ -18,7 +18,7 @@ PASS_THROUGH = (
 
 class Gate:
     """one condition an accept site is control dependent on."""
-    __slots__ = ('kind', 'what', 'operands', 'fn', 'block', 'line', 'callee', 'args', 'edge', 'const_ops', 'truth', 'negated', 'dom')
+    __slots__ = ('kind', 'what', 'operands', 'fn', 'block', 'line', 'callee', 'args', 'edge', 'const_ops', 'truth', 'negated', 'dom', 'param')
 
     def __init__(self, kind, what, operands, fn, block, line, callee=None, args=None, edge=None, const_ops=None):
         self.kind = kind          # 'cmp' | 'call' | 'deleg' | 'match' | 'opaque'
@@ -34,6 +34,7 @@ class Gate:
         self.dom = False      # the edge the accept site depends on dominates it (every path to the accept passes this check)
         self.truth = None     # which way the condition evaluated on the edge the accept site depends on
         self.negated = False  # an odd number of `!` between the classified operation and the switch
+        self.param = None     # the switch inspects a Result / Option that is a parameter of this function (decided by the caller's argument)
 
     def all_atoms(self):
         out = set()
@@ -120,6 +121,15 @@ class ClosureFrame(Frame):
         for l, rv in parent.fd.closure_aggs.items():
             if rv['name'] == path:
                 self.caps = rv['ops']
+        # a closure handed to an iterator adaptor: its argument is an element of what the receiver iterates
+        self.elem_src = None
+        for bi, t in parent.body.calls():
+            if (t.get('callee') or '').startswith('std::iter::Iterator::') and len(t['args']) >= 2:
+                for a in t['args'][1:]:
+                    if a['k'] in ('copy', 'move') and not a['pl'].get('p'):
+                        ci = parent.fd._closure_info(a['pl']['l'])
+                        if ci is not None and ci[0] == path:
+                            self.elem_src = t['args'][0]
 
     def lift(self, atoms):
         out = set()
@@ -137,6 +147,8 @@ class ClosureFrame(Frame):
                 elif s[1] == 1 and self.caps is not None:
                     for c in self.caps:
                         out |= self.parent.lift(self.parent.fd.read_op(c))
+                elif s[1] >= 2 and self.elem_src is not None:
+                    out |= self.parent.lift(self.parent.fd.read_op(self.elem_src))
             else:
                 out.add(a)
         return out
@@ -166,6 +178,11 @@ def _classify_value(eng, fd, pl, bi, line, depth):
     l = pl['l']
     if depth > 12:
         return Gate('opaque', 'deep', [fd.read_place(pl)], body.path, bi, line)
+    if fd.is_param(l) and all(p['k'] in ('deref', 'downcast') for p in pl.get('p', [])) and \
+            body.local_ty(l).lstrip('&').startswith(('std::result::Result<', 'std::option::Option<')):
+        g = Gate('match', 'param', [fd.read_place(pl)], body.path, bi, line)
+        g.param = l
+        return g
     d = single_def(fd, l) if not pl.get('p') or all(p['k'] in ('deref', 'downcast') or
                                                     (p['k'] == 'field' and p.get('adt', '').startswith(('std::result', 'std::option', 'std::ops::ControlFlow')))
                                                     for p in pl.get('p', [])) else None
@@ -305,6 +322,46 @@ class GateAnalysis:
             out.extend(self._flatten(s))
         return out
 
+    def _lift_paths(self, fd, callee, args, dom, _stack, depth=0):
+        """accept paths of `callee` as gate lists in the terms of the calling body `fd` (arguments `args`).  A callee gate that inspects a
+        Result / Option *parameter* is decided by the caller's argument: it is replaced by the classification of that argument here (and, when
+        the argument comes from another local call, by that call's accept paths)."""
+        cps = self.accept_paths(callee, _stack)
+        out = []
+        for cp in cps:
+            lifted = []
+            extra = [[]]
+            for g in cp['gates']:
+                if g.param is not None and g.param - 1 < len(args) and args[g.param - 1]['k'] in ('copy', 'move') and depth < 6:
+                    g2 = _classify_value(self.eng, fd, args[g.param - 1]['pl'], g.block, g.line, 0)
+                    subs = []
+                    for s2 in self._flatten(g2):
+                        s2.dom = g.dom and dom
+                        if s2.truth is None:
+                            s2.truth = g.truth
+                        subs.append(s2)
+                    for s2 in subs:
+                        if s2.kind == 'deleg':
+                            alts = self._lift_paths(fd, s2.callee, s2.args, s2.dom, _stack, depth + 1) or [[]]
+                            extra = [e + a for e in extra for a in alts][:64]
+                        else:
+                            lifted.append(s2)
+                    continue
+                ops = []
+                for o in g.operands:
+                    oo = set()
+                    for a in o:
+                        oo |= fd._inst_atom(a, args)
+                    ops.append(oo)
+                ng = Gate(g.kind, g.what, ops, g.fn, g.block, g.line, g.callee, None, g.edge, g.const_ops)
+                ng.truth = g.truth
+                ng.dom = g.dom and dom
+                ng.param = None
+                lifted.append(ng)
+            for e in extra:
+                out.append(lifted + e)
+        return out
+
     def accept_paths(self, path, _stack=()):
         """list of accept paths of function `path`; each is a list of non-delegating Gates whose operand atom
         sets are in `path`'s own parameter terms.  One entry per (accept block x callee accept path)."""
@@ -326,6 +383,15 @@ class GateAnalysis:
                     dgt = Gate('deleg', tgt, [], path, bi, extra.get('line'), callee=tgt, args=extra['args'])
                     dgt.dom = True
                     delegs.append(dgt)
+                elif (extra.get('callee') or '') in PASS_THROUGH and extra['args'] and extra['args'][0]['k'] in ('copy', 'move'):
+                    # `opt.ok_or(e)` / `res.map_err(f)` returned as it is: success is decided by what produced `opt`
+                    g = _classify_value(self.eng, fd, extra['args'][0]['pl'], bi, extra.get('line'), 0)
+                    g.dom = True
+                    for g2 in self._flatten(g):
+                        if g2.kind == 'deleg':
+                            delegs.append(g2)
+                        else:
+                            direct.append(g2)
                 else:
                     gt = Gate('call', extra.get('callee') or '?', [fd.read_op(a) for a in extra['args']],
                               path, bi, extra.get('line'), callee=extra.get('callee'), args=extra['args'])
@@ -341,22 +407,7 @@ class GateAnalysis:
                         direct.append(g2)
             combos = [list(direct)]
             for dg in delegs:
-                cps = self.accept_paths(dg.callee, _stack + (path,))
-                lifted_alts = []
-                for cp in cps:
-                    lifted = []
-                    for g in cp['gates']:
-                        ops = []
-                        for o in g.operands:
-                            oo = set()
-                            for a in o:
-                                oo |= fd._inst_atom(a, dg.args)
-                            ops.append(oo)
-                        ng = Gate(g.kind, g.what, ops, g.fn, g.block, g.line, g.callee, None, g.edge, g.const_ops)
-                        ng.truth = g.truth
-                        ng.dom = g.dom and dg.dom
-                        lifted.append(ng)
-                    lifted_alts.append(lifted)
+                lifted_alts = self._lift_paths(fd, dg.callee, dg.args, dg.dom, _stack + (path,))
                 if not lifted_alts:
                     lifted_alts = [[]]
                 new = []
